@@ -747,8 +747,15 @@ class XsdElement(XsdComponent, ParticleMixin,
             if content and len(content) == 1 and content[0][0] == 1:
                 value, content = content[0][1], None
 
+            fixed_value = value
+            if fixed_value is None and obj.text and not len(obj):
+                # whitespace-only text: in decoding mode the content is an empty
+                # list, in validation-only mode it's a stripped text (issue: the
+                # two modes gave opposite verdicts for a fixed value constraint).
+                fixed_value = str(obj.text.strip())
+
             if self.fixed is not None and \
-                    (len(obj) > 0 or value is not None and self.fixed != value):
+                    (len(obj) > 0 or fixed_value is not None and self.fixed != fixed_value):
                 reason = _("must have the fixed value %r") % self.fixed
                 context.validation_error(validation, self, reason, obj)
 
